@@ -48,6 +48,8 @@ PROGS = [
     "t = sum(x for x in xs)\nu = f((y for y in ys), z)\nv = any(\n    w for w in ws\n)",
     # one name in every expression context (the ctx parameter decides whether a context instance in the pattern is compared)
     "x = x + 1\ndel x, y\nfor x in x: pass\nz = [x for x in w if x]\nwith a as x: x",
+    # patterns
+    "match s:\n    case [a, b]: pass\n    case (c, [d, e]): pass\n    case 1 | 2: x\n    case {3: [f, g]}: y",
     # blocks inside blocks
     "if a:\n    if b:\n        c\n    d\nif e: f\nelif g:\n    if h: i\nq",
     # parameter lists of every size from zero to two
@@ -137,6 +139,13 @@ def rules(M):
     R['if->two-stmts'] = (M.MIf(test=M.M(t=...), body=M.M(b=...)), lambda n: isinstance(n, ast.If),
                           lambda n: [T(ast.Expr(value=name('x'))), ast.While(test=n.test, body=list(n.body), orelse=[], _tmpl=True)],
                           'x\nwhile __FST_t:\n    __FST_b', False)
+    # slots below a pattern node that is not a slot itself ('<pattern> as name' with an ordinary capture name)
+    R['seq->as'] = (M.MMatchSequence(patterns=[M.M(p=...), M.M(q=...)]), lambda n: isinstance(n, ast.MatchSequence) and len(n.patterns) == 2,
+                    lambda n: ast.MatchAs(pattern=ast.MatchSequence(patterns=[n.patterns[1], n.patterns[0]], _tmpl=True), name='both', _tmpl=True),
+                    ('FST', '[__FST_q, __FST_p] as both', 'pattern'), False)
+    R['value->or-as'] = (M.MMatchValue(), lambda n: isinstance(n, ast.MatchValue),
+                         lambda n: ast.MatchAs(pattern=ast.MatchOr(patterns=[n, T(ast.MatchSingleton(value=None))], _tmpl=True), name='v', _tmpl=True),
+                         ('FST', '(__FST_ | None) as v', 'pattern'), False)
     # whole-match slot where the slot is an element made of several nodes (a parameter with its default): structure unchanged
     R['args-identity'] = (M.Marguments(), lambda n: isinstance(n, ast.arguments), lambda n: n, ('FST', '__FST_', 'arguments'), True)
     # a slot inside a string literal of the template receives the matched source as text (documented): the result is a Constant
@@ -360,7 +369,7 @@ def run_case(fst, M, pi, rname, st, res):
 
 RULE_NAMES = ['name->log', 'binop->f', 'binop-swap', 'call-unwrap', 'expr-identity', 'list-slice', 'dict-mid', 'if-swap', 'stmt-identity',
               'def->wrapper',
-              'call-args-tail', 'call-_args-tail', 'call-_args-init', 'genexp->list', 'genexp->or', 'name->par', 'name-x-ctx', 'args-identity', 'name->str', 'if->two-stmts']
+              'call-args-tail', 'call-_args-tail', 'call-_args-init', 'genexp->list', 'genexp->or', 'name->par', 'name-x-ctx', 'args-identity', 'name->str', 'if->two-stmts', 'seq->as', 'value->or-as']
 
 
 def shards(tier):
